@@ -18,7 +18,10 @@ def kindStr : Kind → String
   | .stream => "stream" | .delete => "delete" | .connect => "connect"
 
 def opOfStr : String → Except String Op
-  | "initialize" => pure .initialize | "tools" => pure .tools | "toolsRetry" => pure .toolsRetry
+  | "initialize" => pure .initialize
+  | "initFail503" | "initFailType" => pure .initFailSent   -- first request answered 503 / with a useless content type
+  | "initFailRefused" => pure .initFailRefused
+  | "tools" => pure .tools | "toolsRetry" => pure .toolsRetry
   | "notify" => pure .notify | "roots" => pure .roots | "rootsUnknown" => pure .rootsUnknown
   | "terminate" => pure .terminate
   | s => throw s!"op {s}"
@@ -35,8 +38,9 @@ def ctxStr : CtxObs → String
 def cfgOfJson (j : Json) : Except String Cfg := do
   pure ⟨← getBool j "headers", ← getBool j "before", ← getBool j "handler", ← getBool j "path", ← getBool j "client"⟩
 
-def jsonOfObs (k : Kind) (o : Obs) : Json :=
-  Json.mkObj [("fn", jsonOfText o.fn), ("kind", Json.str (kindStr k)), ("verb", Json.str (verbStr o.verb)),
+def jsonOfObs (k : Kind) (o : Obs) (seen : Option Nat) : Json :=
+  Json.mkObj [("seen", match seen with | some v => Json.num (JsonNumber.fromNat v) | none => Json.null),
+    ("fn", jsonOfText o.fn), ("kind", Json.str (kindStr k)), ("verb", Json.str (verbStr o.verb)),
     ("path", Json.bool o.pathOk), ("headers", Json.bool o.headersOk), ("session", Json.bool o.sessionOk),
     ("via", Json.str (viaStr o.via)), ("client", Json.bool o.client),
     ("before", Json.num (JsonNumber.fromNat o.before)), ("ctx", Json.str (ctxStr o.ctx))]
@@ -48,8 +52,10 @@ def handle (op : String) (j : Json) : Except String Json := do
     let c ← clientOfStr (← getStr j "client")
     let cfg ← cfgOfJson (← j.getObjVal? "cfg")
     let hist ← (← getArr j "hist").toList.mapM (fun (x : Json) => do opOfStr (← x.getStr?))
-    let outs ← (trace cfg ps c {} hist).mapM (fun o => match o with
-      | some (k, obs) => pure (jsonOfObs k obs)
+    -- the i-th operation (1-based) is called with context value i
+    let histV := (List.range hist.length).zipWith (fun i op => (op, i + 1)) hist
+    let outs ← (trace cfg ps c {} histV).mapM (fun o => match o with
+      | some (k, obs, seen) => pure (jsonOfObs k obs seen)
       | none => throw "a request kind of this client has no request-building function in the regenerated table")
     pure (Json.mkObj [("reqs", Json.arr outs.toArray)])
   | "blocked" =>
